@@ -202,6 +202,89 @@ func runC01(r *Run, rng *rand.Rand, thorough bool) {
 			r.Samples = append(r.Samples, fmt.Sprintf("ecdsa signing signers=%v digest=%s fullBytesLen=%d schedule=%s events=%d", sub, eInt(m), fullLen, st.Name, len(net.Events)))
 		}
 	}
+	// directed: nonce shares and digest steered so that r and s hit the boundaries of the canonical form
+	// (leading zero bytes in r, in s; s just below / above q/2 where the low-S flip happens; s = 1, s = q-1)
+	{
+		// the private key, from the vendored shares (the harness holds all of them)
+		ids := make([]*big.Int, ks.t+1)
+		xs := make([]*big.Int, ks.t+1)
+		for i := 0; i <= ks.t; i++ {
+			ids[i], xs[i] = new(big.Int).Mod(ks.keys[i].ShareID, q), ks.keys[i].Xi
+		}
+		x := lagrangeZero(q, ids, xs)
+		// u with (u·G).x < 2^248: R = (Σk)^-1·G = u·G gets a leading zero byte
+		u := big.NewInt(1)
+		for ; ; u.Add(u, bi(1)) {
+			if crypto.ScalarBaseMult(tss.S256(), u).X().BitLen() <= 248 {
+				break
+			}
+		}
+		half := new(big.Int).Rsh(q, 1)
+		targets := []*big.Int{bi(1), randInt(rng, 200), new(big.Int).Set(half), new(big.Int).Add(half, bi(1)), new(big.Int).Sub(q, bi(1)), new(big.Int).Sub(q, randInt(rng, 200))}
+		if !thorough {
+			targets = []*big.Int{targets[1], targets[3], targets[int(r.Seed)%len(targets)]}
+		}
+		for ti, sStar := range targets {
+			useU := u
+			if ti%2 == 1 {
+				useU = new(big.Int).Add(below(rng, new(big.Int).Sub(q, bi(2))), bi(1)) // ordinary r, boundary s
+			}
+			kTotal := new(big.Int).ModInverse(useU, q)
+			R := crypto.ScalarBaseMult(tss.S256(), useU)
+			// m = s*·u − r·x (mod q)
+			m := new(big.Int).Mul(sStar, useU)
+			m.Sub(m, new(big.Int).Mul(R.X(), x)).Mod(m, q)
+			sub := all[ti%len(all)]
+			un := make(tss.UnSortedPartyIDs, len(sub))
+			for a, j := range sub {
+				un[a] = ks.pids[j]
+			}
+			pids := tss.SortPartyIDs(un)
+			kk := make([]ecdsakeygen.LocalPartySaveData, 0, len(pids))
+			for _, id := range pids {
+				for j, p := range ks.pids {
+					if bytes.Equal(p.Key, id.Key) {
+						kk = append(kk, ks.keys[j])
+					}
+				}
+			}
+			net := ecdsaSigningNet(rng, kk, pids, ks.t, m, -1, nil)
+			sum := new(big.Int)
+			for j := 1; j < len(net.Nodes); j++ {
+				kj := new(big.Int).Add(below(rng, new(big.Int).Sub(q, bi(2))), bi(1))
+				sum.Add(sum, kj)
+				net.Nodes[j].Rand.prefix = padTo(kj, 256)
+			}
+			k0 := new(big.Int).Mod(new(big.Int).Sub(kTotal, sum), q)
+			if k0.Sign() == 0 {
+				continue
+			}
+			net.Nodes[0].Rand.prefix = padTo(k0, 256)
+			net.Run(rng, Strategy{Name: "fifo", Pick: pickFIFO}, 200000)
+			out := &sigOutcome{panics: net.Panics}
+			for _, nd := range net.Nodes {
+				for _, e := range nd.Ends {
+					out.sigs = append(out.sigs, e.(*common.SignatureData))
+				}
+				if nd.Err != nil {
+					out.errs = append(out.errs, errDesc(nd.Err))
+				}
+				out.emitted = append(out.emitted, nd.Emitted)
+			}
+			r.Dist["ecdsa-signing/directed-boundary"]++
+			checkEcdsaSignature(r, "ecdsa-signing/directed", net, out, ks.keys[0].ECDSAPub, m, -1, nil)
+			if len(out.sigs) > 0 {
+				R0, S0 := new(big.Int).SetBytes(out.sigs[0].R), new(big.Int).SetBytes(out.sigs[0].S)
+				wantS := new(big.Int).Set(sStar)
+				if wantS.Cmp(half) > 0 {
+					wantS.Sub(q, wantS)
+				}
+				r.Assert(R0.Cmp(R.X()) == 0 && S0.Cmp(wantS) == 0, "ecdsa-signing/directed/steering", "steered-run-produced-the-intended-(r,s)", func() string {
+					return fmt.Sprintf("r=%s want %s; s=%s want %s", eInt(R0), eInt(R.X()), eInt(S0), eInt(wantS))
+				})
+			}
+		}
+	}
 	// freshly generated key with another (n,t)
 	cfgs := [][2]int{{3, 1}}
 	if thorough {
